@@ -126,7 +126,7 @@ func init() {
 		level: "other",
 		jobs: func(tier string) []job {
 			js := []job{J("socket", "VX_C12_PipeInverts", 0, 2), J("socket", "VX_C12_PipeInverts", 1, 2), J("socket", "VX_C12_PipeInverts", 2, 2),
-				J("socket", "VX_C12_PipeOnWire", 1, 1), J("socket", "VX_C12_PipeOnWire", 2, 1), J("socket", "VX_C12_Unregistered"), J("socket", "VX_C12_TooLong"),
+				J("socket", "VX_C12_RecycledPipe", 1, 1, 2), J("socket", "VX_C12_RecycledPipe", 6, 2, 1), J("socket", "VX_C12_RecycledPipe", 0, 1, 1), J("socket", "VX_C12_PipeOnWire", 1, 1), J("socket", "VX_C12_PipeOnWire", 2, 1), J("socket", "VX_C12_Unregistered"), J("socket", "VX_C12_TooLong"),
 				J("socket", "VX_C12_UnregisteredInPipe", 2, 0), J("socket", "VX_C12_UnregisteredInPipe", 2, 1), J("socket", "VX_C12_UnregisteredInPipe", 3, 0), J("socket", "VX_C12_UnregisteredInPipe", 3, 1), J("socket", "VX_C12_UnregisteredInPipe", 3, 2),
 				J("socket", "VX_C12_PipeLengthOnWire", 255, 1), J("socket", "VX_C12_PipeLengthOnWire", 254, 1), J("socket", "VX_C12_PipeLengthOnWire", 128, 2), J("socket", "VX_C12_PipeLengthOnWire", 127, 1),
 				J("xfer/gzip", "VX_C12_GzipPipe", 0, 300), J("xfer/gzip", "VX_C12_GzipPipe", 1, 300), J("xfer/gzip", "VX_C12_GzipPipe", 2, 64), J("xfer/gzip", "VX_C12_GzipPipe", 3, 300),
@@ -175,7 +175,7 @@ func init() {
 		dirs:  []string{"."},
 		level: "other",
 		jobs: func(tier string) []job {
-			var js []job
+			js := []job{J(".", "VX_C03_AfterDeadlineBoundWrite", 0), J(".", "VX_C03_AfterDeadlineBoundWrite", 1)}
 			add := func(a ...int) { js = append(js, J(".", "VX_C03_Frame", a...)) }
 			// mtypeMode, methodMode, unknownH, outcome, vetoStage, writeFail, nBody, pipe
 			for _, oc := range []int{0, 1, 2, 3, 4} {
@@ -249,7 +249,7 @@ func init() {
 		js = append(js, J(".", "VX_C02_CallDuringClose", 0, 0), J(".", "VX_C02_CallDuringClose", 0, 1), J(".", "VX_C02_CallDuringClose", 1, 0), J(".", "VX_C02_CallDuringClose", 1, 1))
 		js = append(js, historyJobs(tier, true)...)
 		js = append(js, J(".", "VX_C02_ReplyThenLoss", 0, 1, 0), J(".", "VX_C02_ReplyThenLoss", 0, 4, 0), J(".", "VX_C02_ReplyThenLoss", 1, 1, 0), J(".", "VX_C02_ReplyThenLoss", 0, 1, 1),
-			J(".", "VX_C14_DisconnectWhileLaunching", 0, 0), J(".", "VX_C14_DisconnectWhileLaunching", 1, 1), J(".", "VX_C14_DisconnectWhileLaunching", 0, 1),
+			J(".", "VX_C14_DisconnectWhileLaunching", 0, 0), J(".", "VX_C14_DisconnectWhileLaunching", 1, 1), J(".", "VX_C14_DisconnectWhileLaunching", 0, 1), J(".", "VX_C14_DisconnectWhileLaunching", 0, 2), J(".", "VX_C14_DisconnectWhileLaunching", 1, 2),
 			J("proto/httproto", "VX_C02_HTTPErrorReply", 0), J(".", "VX_C06_SessionFieldBytes", 4, 1))
 		for _, cut := range []int{1, 3, 4, 5, 9, 14, 18} {
 			add(1, 1, 0, 2, 0, cut, 0)
@@ -277,7 +277,7 @@ func init() {
 			js := []job{J(".", "VX_C08_GracefulClose", 0, 1), J(".", "VX_C08_GracefulClose", 1, 1), J(".", "VX_C08_GracefulClose", 2, 1), J(".", "VX_C02_CloseThenLoss", 1), J(".", "VX_C02_CloseThenLoss", 0),
 				J(".", "VX_C08_CloseTwoPending", 0), J(".", "VX_C08_CloseTwoPending", 1), J(".", "VX_C02_CallDuringClose", 1, 0), J(".", "VX_C02_CallDuringClose", 0, 1),
 				J(".", "VX_C08_CloseHandlerNeedsTraffic", 0), J(".", "VX_C08_CloseHandlerNeedsTraffic", 1), J(".", "VX_C07_CloseWaitsThenLoss", 0),
-				J(".", "VX_C08_OverlappingClose", 0), J(".", "VX_C08_OverlappingClose", 1), J(".", "VX_C08_OverlappingClose", 2), J(".", "VX_C08_PeerCloseAfterRedial", 0), J(".", "VX_C08_PeerCloseAfterRedial", 1)}
+				J(".", "VX_C08_OverlappingClose", 0), J(".", "VX_C08_OverlappingClose", 1), J(".", "VX_C08_OverlappingClose", 2), J(".", "VX_C08_PeerCloseAfterRedial", 0), J(".", "VX_C08_PeerCloseAfterRedial", 1), J(".", "VX_C08_CloseDuringLaunch")}
 			js = append(js, historyJobs(tier, true)...)
 			// the parked handler ends with an error status / a panic
 			js = append(js, J(".", "VX_Session_History", 3, -1, 1), J(".", "VX_Session_History", 3, -1, 2))
@@ -464,6 +464,11 @@ func init() {
 				js = append(js, J(".", "VX_C10_Conflict", m))
 			}
 			js = append(js, J(".", "VX_C10_RealRoutes", 1), J(".", "VX_C10_SubRoutePush", 0), J(".", "VX_C10_SubRoutePush", 1), J(".", "VX_C10_UnknownAfterSession"), J(".", "VX_C10_NestedGroups", 1), J(".", "VX_C09_SiblingGroups", 3, 1), J(".", "VX_C09_SiblingGroups", 1, 2))
+			for k := 0; k <= 1; k++ {
+				for c := 0; c <= 2; c++ {
+					js = append(js, J(".", "VX_C10_RewrittenName", k, c))
+				}
+			}
 			if tier == "thorough" {
 				js = append(js, J(".", "VX_C10_MapperSymbolic", 4, 1), J(".", "VX_C10_MapperSymbolic", 5, 0), J(".", "VX_C10_MapperSymbolic", 6, 2))
 			}
@@ -589,7 +594,7 @@ func init() {
 			js = append(js, J("codec", "VX_C11_PlainGarbage", 5, 0), J("codec", "VX_C11_PlainGarbage", 4, 1),
 				J("codec", "VX_C11_PlainReuse", 3, 1), J("codec", "VX_C11_PlainReuse", 2, 0), J("codec", "VX_C11_PlainReuse", 1, 2),
 				J("codec", "VX_C11_FormRoundTrip", 0, 1, 0), J("codec", "VX_C11_FormRoundTrip", 1, 1, 2), J("codec", "VX_C11_FormRoundTrip", 1, 0, 3), J("codec", "VX_C11_FormRoundTrip", 2, 1, 0), J("codec", "VX_C11_FormRoundTrip", 3, 1, 1),
-				J("codec", "VX_C11_FormIndependent", 1), J("codec", "VX_C11_FormIndependent", 3), J("codec", "VX_C11_FormGarbage", 1, 1), J("codec", "VX_C11_FormGarbage", 1, 2), J("codec", "VX_C11_FormGarbage", 1, 3), J("codec", "VX_C11_FormGarbage", 0, 2), J("codec", "VX_C11_FormGarbage", 0, 3),
+				J("codec", "VX_C11_FormTwoTypes", 0), J("codec", "VX_C11_FormTwoTypes", 1), J("codec", "VX_C11_FormIndependent", 1), J("codec", "VX_C11_FormIndependent", 3), J("codec", "VX_C11_FormGarbage", 1, 1), J("codec", "VX_C11_FormGarbage", 1, 2), J("codec", "VX_C11_FormGarbage", 1, 3), J("codec", "VX_C11_FormGarbage", 0, 2), J("codec", "VX_C11_FormGarbage", 0, 3),
 				J("codec", "VX_C11_ThriftRoundTrip", 2), J("codec", "VX_C11_ThriftGarbage", 4), J("codec", "VX_C11_ThriftGarbage", 6),
 				J("codec", "VX_C11_PlainWindow", 4, 6, 0), J("codec", "VX_C11_PlainWindow", 4, 3, 0), J("codec", "VX_C11_PlainWindow", 0, 2, 0), J("codec", "VX_C11_PlainWindow", 4, 6, 1),
 				J("codec", "VX_C11_EncodingsIndependent", 0, 1), J("codec", "VX_C11_EncodingsIndependent", 1, 1), J("codec", "VX_C11_EncodingsIndependent", 2, 1),
@@ -611,7 +616,7 @@ func init() {
 				js = append(js, J(".", "VX_C14_Races", sc, 0))
 			}
 			js = append(js, J(".", "VX_C14_Races", 0, 1), J(".", "VX_C14_Races", 4, 1), J(".", "VX_C14_Races", 14, 0))
-			js = append(js, J(".", "VX_C14_DisconnectWhileLaunching", 0), J(".", "VX_C14_DisconnectWhileLaunching", 1), J(".", "VX_C14_DisconnectWhileLaunching", 0, 1))
+			js = append(js, J(".", "VX_C14_DisconnectWhileLaunching", 0), J(".", "VX_C14_DisconnectWhileLaunching", 1), J(".", "VX_C14_DisconnectWhileLaunching", 0, 1), J(".", "VX_C14_DisconnectWhileLaunching", 1, 2))
 			js = append(js, J(".", "VX_C14_Races", 7, 0), J(".", "VX_C14_Races", 8, 0), J(".", "VX_C14_Races", 7, 1), J(".", "VX_C14_Races", 8, 1), J(".", "VX_C14_Races", 9, 0), J(".", "VX_C14_Races", 10, 0), J(".", "VX_C14_Races", 11, 0), J(".", "VX_C14_Races", 12, 0), J(".", "VX_C14_Races", 13, 0))
 			if tier == "thorough" {
 				for sc := 1; sc <= 6; sc++ {
